@@ -121,7 +121,7 @@ R.contract(
     requires=["0 <= bits < 4"],
     raises={"KeyError": "packet_type != QuicPacketType.INITIAL and packet_type != QuicPacketType.ZERO_RTT and packet_type != QuicPacketType.HANDSHAKE and packet_type != QuicPacketType.RETRY"},
     ensures=["192 <= result < 256", "result % 4 == bits", "(result // 4) % 4 == 0"],
-    check_frame=True,
+    check_frame=True, check_frame_syntactic=True,
 )
 R.contract(
     "CryptoPair.key_phase",
@@ -173,27 +173,27 @@ R.contract(
 )
 
 # ---------------------------------------------------------------------------------------------------- properties
-R.contract("QuicPacketBuilder.packet_number", returns="int", ensures=["result == self._packet_number"], check_frame=True)
+R.contract("QuicPacketBuilder.packet_number", returns="int", ensures=["result == self._packet_number"], check_frame=True, check_frame_syntactic=True)
 R.contract(
     "QuicPacketBuilder.packet_is_empty",
     returns="bool",
     raises={"AssertionError": "self._packet is None"},
     ensures=["result == (pb_payload(self) <= 0)"],
-    check_frame=True,
+    check_frame=True, check_frame_syntactic=True,
 )
 R.contract(
     "QuicPacketBuilder.remaining_buffer_space",
     returns="int",
     requires=["self._packet_crypto is not None"],
     ensures=["result == self._buffer_capacity - self._buffer.g_pos - 16"],
-    check_frame=True,
+    check_frame=True, check_frame_syntactic=True,
 )
 R.contract(
     "QuicPacketBuilder.remaining_flight_space",
     returns="int",
     requires=["self._packet_crypto is not None"],
     ensures=["result == self._flight_capacity - self._buffer.g_pos - 16"],
-    check_frame=True,
+    check_frame=True, check_frame_syntactic=True,
 )
 
 # ---------------------------------------------------------------------------------------------------- _flush_current_datagram
@@ -206,7 +206,7 @@ _FLUSH_LET = {
 }
 _FLUSH_COMMON = dict(
     use_invariant=False,
-    check_frame=True,
+    check_frame=True, check_frame_syntactic=True,
     let=_FLUSH_LET,
     requires=_FLUSH_PRE,
     ghost_at={
@@ -259,7 +259,7 @@ _END_LET = {
     "is_1rtt": "some(self._packet_type) == QuicPacketType.ONE_RTT",
 }
 _END_COMMON = dict(
-    check_frame=True,
+    check_frame=True, check_frame_syntactic=True,
     let=_END_LET,
     # the contracts cover the builder up to the first overrun (D2): afterwards nothing but the size bound is claimed
     requires=["self._packet is not None", "not self.g_ovr"],
@@ -338,7 +338,7 @@ R.contract(
     "QuicPacketBuilder.start_frame",
     params={"handler": "Optional[Callable]", "handler_args": "list[Any]"},
     returns="Buffer",
-    check_frame=True,
+    check_frame=True, check_frame_syntactic=True,
     # from the call sites (connection.py _write_*_frame): a packet is open, the announced capacity covers the frame type
     requires=["self._packet is not None", "capacity >= 1", "0 <= frame_type <= 4611686018427387903 and varint_size(frame_type) <= capacity"],
     let={
@@ -378,7 +378,7 @@ _ESC = {
 }
 R.contract(
     "QuicPacketBuilder.start_packet",
-    check_frame=True,
+    check_frame=True, check_frame_syntactic=True,
     requires=["crypto.aead_tag_size == 16", "not self.g_ovr"],
     entry_ref_lists=["self._packets"],
     let={"was_emitted": "self._packet is not None and pb_payload(self) > 0"},
@@ -406,7 +406,7 @@ R.contract(
 # ---------------------------------------------------------------------------------------------------- flush
 R.contract(
     "QuicPacketBuilder.flush",
-    check_frame=True,
+    check_frame=True, check_frame_syntactic=True,
     returns="tuple[list[bytes], list[QuicSentPacket]]",
     requires=["not self.g_ovr"],
     raises={"BufferWriteError": None, "CryptoError": None},
@@ -432,7 +432,7 @@ R.field_types("QuicNetworkPath", bytes_received="int", bytes_sent="int", is_vali
 R.contract(
     "QuicNetworkPath.can_send",
     returns="bool",
-    check_frame=True,
+    check_frame=True, check_frame_syntactic=True,
     ensures=["result == (self.is_validated or self.bytes_sent + size <= 3 * self.bytes_received)"],
 )
 
